@@ -1,5 +1,6 @@
 import Gallia.Proofs.Lemmas.HsfzSys
 import Gallia.Proofs.Lemmas.HsfzOrder
+import Gallia.Proofs.Lemmas.HsfzRun
 import Gallia.Gen.C07Hsfz
 /-
   C07 — HSFZ: frames are demultiplexed correctly under any segmentation and interleaving.
@@ -31,6 +32,12 @@ theorem literals_agree :
     Gen.C07Hsfz.aliveUsesWith = false ∧
     Gen.C07Hsfz.defaultAckTimeoutMs = 1000 ∧ Gen.C07Hsfz.ackTimeoutDivisor = 1000 ∧ Gen.C07Hsfz.defaultPort = 6801 := by
   decide
+
+/-- the read queue of hsfz.py is unbounded.  The model relies on it twice: the reader task's `await put()` never
+    suspends (`settle` parses every complete frame whatever the queue holds - alive checks behind any backlog are
+    answered), and the `put_nowait` re-queue of the frames an ack wait skipped never raises (`clientRun` puts all of
+    them back).  What a capacity does: `bounded_queue_starves_alive_check`. -/
+theorem queues_unbounded : Gen.C07Hsfz.queueCaps = [("HSFZConnection.self._read_queue", 0)] := by decide
 
 /-- the comparisons made by the two consumers are the ones of `ackMatches` / `dataMatches` -/
 theorem compares_agree :
@@ -138,11 +145,14 @@ theorem ackMatches_iff (cfg : Cfg) (prev : Bytes) (x : Item) :
 
 /-- a read delivers the payload of the first queued data frame from the ECU to the tester, unmodified, provided no
     bare control word is queued in front of it; the frames it skipped (other pairs, stale acks) and the frames behind
-    it all stay queued -/
+    it all stay queued (the skipped ones are re-appended at the tail: behind the end-of-stream marker once the reader
+    task has ended) -/
 theorem readDiag_delivers (cfg : Cfg) (s : Sys) (sk : List Item) (c : Option Nat) (pre post : List Item) (d : Bytes)
     (hcl : s.client = .reading sk c) (hq : s.queue = pre ++ .frame cwData cfg.dst cfg.src d :: post)
     (hpre : Clean (dataMatches cfg) pre) :
-    clientRun cfg s = { s with queue := post ++ (sk ++ pre) }.finish (.data d) ∧
+    clientRun cfg s =
+      { s with queue := if s.eof then post else post ++ (sk ++ pre),
+               behind := if s.eof then s.behind ++ (sk ++ pre) else s.behind }.finish (.data d) ∧
     (post ++ (sk ++ pre)).Perm (sk ++ (pre ++ post)) := by
   constructor
   · have hs := scan_hit (dataMatches cfg) sk pre (.frame cwData cfg.dst cfg.src d) post hpre rfl
@@ -188,7 +198,7 @@ theorem reads_account_for_every_frame (cfg : Cfg) (yields : Wire → Bool) (ops 
       dataOf cfg (held (exec cfg yields {} ops).client ++
         ((exec cfg yields {} ops).queue ++ items (parseAll hsfzCutter (exec cfg yields {} ops).buf).1)) =
     dataOf cfg (items (parseAll hsfzCutter (fedBytes ops)).1) := by
-  obtain ⟨_, h⟩ := exec_arrived cfg yields ops {} (WF_idle cfg _ rfl)
+  obtain ⟨_, h⟩ := exec_arrived cfg yields ops {} (WF_idle cfg _ rfl rfl)
   have := h []
   simpa [arrived, held] using this
 
@@ -266,6 +276,61 @@ theorem write_caller_timeout (cfg : Cfg) (yields : Wire → Bool) (s : Sys) (pre
       { s with now := s.now + dt, queue := sk ++ s.queue, client := .idle, done := s.done ++ [(ct, .timeout)] } := by
   simp [execOp, fire, hcl, h1, h2, Sys.finish]
 
+/-- **write outcomes over whole executions.**  At any point of any execution (`ops0`) with the client idle, the
+    connection open and the stream alive, a write starts; `ops` is any continuation of gateway bytes (any
+    segmentation) and passing time - what can happen while the one client task is blocked in the write; `rest` is
+    whatever happens afterwards.  `seen` = the items queued when the request goes out, followed by those the byte
+    stream delivers strictly before the write's deadline `d` (the ack timeout, or the caller's earlier timeout).
+    Then, for every schedule:
+
+    * the write ends with the *first* item of `seen` that decides its wait, at the instant that item is queued: an ack
+      with control word 2, the tester's address pair and the first five request bytes completes it (`wrote len`), a bare
+      control word fails it with that word and closes the connection;
+    * if there is none and time has reached `d`, it ends *exactly at* `d`: with the caller's `TimeoutError` when `d` is
+      the caller's timeout, with "no ack" and the connection closed for good when `d` is the ack timeout - an ack
+      arriving at `d` or later is too late for it (and finds the connection closed);
+    * if there is none and time has not reached `d`, it is still blocked, holding every item seen, in order.
+
+    The per-`settle` statement `write_completes_iff_acked` is the one-event instance. -/
+theorem hsfz_write_outcomes (cfg : Cfg) (yields : Wire → Bool) (ops0 : List Op) (data : Bytes) (tmo : Option Nat)
+    (ops rest : List Op)
+    (hidle : (exec cfg yields {} ops0).client = .idle) (hopen : (exec cfg yields {} ops0).closed = false)
+    (hlive : (exec cfg yields {} ops0).eof = false) (htmo : tmo ≠ some 0) (hack : 0 < cfg.ackTimeout)
+    (hsafe : gatewayOnly ops)
+    (s : Sys) (hs : s = exec cfg yields {} ops0) (d : Nat) (byCaller : Bool)
+    (hd : (d, byCaller) = ackExpiry (s.now + cfg.ackTimeout) (tmo.map (s.now + ·)))
+    (seen : List (Nat × Item))
+    (hseen : seen = s.queue.map (fun x => (s.now, x)) ++ (hlog s.buf s.now ops).filter (fun e => decide (e.1 < d)))
+    (S : Sys) (hS : S = exec cfg yields {} (ops0 ++ .write data tmo :: ops)) :
+    (∀ t x, seen.find? (fun e => decides (ackMatches cfg data) e.2) = some (t, x) →
+      ∃ more, (exec cfg yields S rest).done = s.done ++ (t, ackResult data x) :: more ∧
+        (x.isFrame = false → (exec cfg yields S rest).closed = true)) ∧
+    (seen.find? (fun e => decides (ackMatches cfg data) e.2) = none → d ≤ hnow s.now ops →
+      ∃ more, (exec cfg yields S rest).done = s.done ++ (d, if byCaller then .timeout else .noAck) :: more ∧
+        (byCaller = false → (exec cfg yields S rest).closed = true)) ∧
+    (seen.find? (fun e => decides (ackMatches cfg data) e.2) = none → hnow s.now ops < d →
+      S.client = .ackWait data (s.queue ++ (hlog s.buf s.now ops).map (·.2)) (s.now + cfg.ackTimeout)
+        (tmo.map (s.now + ·)) ∧ S.done = s.done ∧ (S.closed || S.eof) = false) := by
+  subst hs hseen
+  have hinv := exec_hinv cfg yields ops0 {} HInv_init
+  have hS' : S = exec cfg yields (execOp cfg yields (exec cfg yields {} ops0) (.write data tmo)) ops := by
+    rw [hS]; simp [exec]
+  obtain ⟨a, b, c⟩ := write_run cfg yields _ hinv hidle hopen hlive data tmo htmo hack ops hsafe d byCaller hd
+  rw [hS']
+  exact ⟨fun t x h => a t x h rest, fun h hle => b h hle rest, c⟩
+
+/-- a write completes iff the item that decided its wait is an ack: `ackResult` is `wrote len` exactly for a frame
+    (which `decides` only lets through when it is the matching ack), and an error result otherwise -/
+theorem hsfz_write_result (cfg : Cfg) (data : Bytes) (x : Item) (h : decides (ackMatches cfg data) x = true) :
+    (ackResult data x = .wrote data.length ↔ x = .frame cwAck cfg.src cfg.dst (data.take echoLen)) ∧
+    (∀ cw, x = .word cw → ackResult data x = .errWord cw) := by
+  cases x with
+  | word cw => simp [ackResult]
+  | frame cw s t d =>
+    have hm : ackMatches cfg data (.frame cw s t d) = true := by simpa [decides, Item.isFrame] using h
+    have := (ackMatches_iff cfg data _).mp hm
+    simp [ackResult, this]
+
 /-- what a write puts on the wire: header(Len = len + 2, control word 1), tester, ECU, request -/
 theorem write_bytes (cfg : Cfg) (yields : Wire → Bool) (s : Sys) (data : Bytes) (t : Option Nat)
     (hi : s.client = .idle) (ho : s.closed = false) :
@@ -336,6 +401,21 @@ theorem alive_reply_ignores_client (cfg : Cfg) (s : Sys) (w : Wire) (cl : Client
     (deliver cfg { s with client := cl } w).out = (deliver cfg s w).out := by
   simp [deliver_out]
 
+/-- why `queues_unbounded` is an obligation: with a read queue of capacity 2, three data frames of another tester
+    followed by an alive check, arriving while the client is idle, leave the reader task suspended in `put()` with the
+    alive check unread and unanswered; the unbounded queue of the code answers it at once.  And a write that skipped
+    three frames before its ack puts three frames back: more than such a queue could take (`put_nowait` would raise
+    `QueueFull`). -/
+theorem bounded_queue_starves_alive_check :
+    let cfg : Cfg := ⟨0xf4, 0x10, 1000⟩
+    let burst := encodeWire (.full cwData 0x10 0xf5 [1]) ++ encodeWire (.full cwData 0x10 0xf5 [2]) ++
+      encodeWire (.full cwData 0x10 0xf5 [3])
+    (settleBounded 2 cfg (asyncioYields true) { buf := burst ++ encodeWire (.full cwAlive 0 0 []) }).out = [] ∧
+    (settle cfg (asyncioYields true) { buf := burst ++ encodeWire (.full cwAlive 0 0 []) }).out = [(0, aliveReply cfg)] ∧
+    (exec cfg (asyncioYields true) {}
+      [.write [0x3e, 0x00] none, .feed (burst ++ encodeWire (.full cwAck 0xf4 0x10 [0x3e, 0x00]))]).queue.length = 3 := by
+  decide +kernel
+
 /-! ### error control words -/
 
 /-- every control word other than data, ack and alive check — with or without address header, any length — is
@@ -392,6 +472,21 @@ example :
       simp only [List.mem_singleton] at hy
       subst hy; decide⟩
   exact h
+
+/-- `hsfz_write_outcomes` is not vacuous: two writes one after the other, the ack of the first arrives 5 ms after its
+    ack timeout; the first write has failed with "no ack" exactly at the deadline and closed the connection, the late
+    ack is not even parsed, the second write is refused at once.  With a caller timeout of 300 ms instead, the first
+    write ends with `TimeoutError`, the connection stays open, and its late ack - which echoes the same five bytes -
+    is what the second write (same request) sees first -/
+example :
+    let cfg : Cfg := ⟨0xf4, 0x10, 1000⟩
+    let ack := encodeWire (.full cwAck 0xf4 0x10 [0x3e, 0x00])
+    (exec cfg (asyncioYields true) {} [.write [0x3e, 0x00] none, .advance 1005, .feed ack, .write [0x3e, 0x00] none]).done =
+      [(1000, .noAck), (1005, .connReset)] ∧
+    (exec cfg (asyncioYields true) {} [.write [0x3e, 0x00] (some 300), .advance 400, .feed ack, .write [0x3e, 0x00] none]).done =
+      [(300, .timeout), (400, .wrote 2)] ∧
+    gatewayOnly [.advance 1005, .feed ack] := by
+  decide +kernel
 
 /-- ... and afterwards the skipped frame A is queued in front of B (`skipped_stay_available`) -/
 example :
